@@ -324,6 +324,59 @@ func msgName(m sdk.Msg) string {
 	return s
 }
 
+// escrowFacts: after a step, per escrowed claim kind and denom: the module's balance and the sum of
+// the pending entries owned by accounts that did not sign
+func (w *world) escrowFacts(pre, post snap, signers []int) (coq, js []string) {
+	mods := map[string]int64{"tip": 1003, "undelegation": 1001, "l2bond": 1004, "reward": 1002, "rrreward": 1007}
+	type kd struct{ k, d string }
+	total := func(sn snap) map[kd]sdk.Int {
+		sum := map[kd]sdk.Int{}
+		for ck, v := range sn.claims {
+			if _, ok := mods[ck.Kind]; !ok {
+				continue
+			}
+			signed := false
+			for _, s := range signers {
+				signed = signed || int64(s) == ck.Owner
+			}
+			if signed {
+				continue
+			}
+			x := kd{ck.Kind, ck.Denom}
+			if old, ok := sum[x]; ok {
+				sum[x] = old.Add(v)
+			} else {
+				sum[x] = v
+			}
+		}
+		return sum
+	}
+	sa, sb := total(post), total(pre)
+	var keys []kd
+	for x := range sa {
+		keys = append(keys, x)
+	}
+	sort.Slice(keys, func(i, j int) bool { return keys[i].k+"/"+keys[i].d < keys[j].k+"/"+keys[j].d })
+	get := func(sn snap, m int64, d string) sdk.Int {
+		if v, ok := sn.bal[m][d]; ok {
+			return v
+		}
+		return sdk.ZeroInt()
+	}
+	for _, x := range keys {
+		pb := sdk.ZeroInt()
+		if v, ok := sb[x]; ok {
+			pb = v
+		}
+		ba, bb := get(post, mods[x.k], x.d), get(pre, mods[x.k], x.d)
+		coq = append(coq, fmt.Sprintf("FEscrow %s %d %s %s %s %s %s", hx.Str(x.k), mods[x.k], hx.Str(x.d), hx.ZInt(sa[x]), hx.ZInt(ba), hx.ZInt(pb), hx.ZInt(bb)))
+		if sa[x].GT(ba) {
+			js = append(js, fmt.Sprintf("escrow of %s in %s: %s holds %s (before: %s), pending entries of non-signers sum to %s (before: %s)", x.k, x.d, w.name(mods[x.k]), ba, bb, sa[x], pb))
+		}
+	}
+	return
+}
+
 // tx delivers msgs signed by the given accounts with full monitoring.
 func (w *world) tx(op string, attack bool, msgs []sdk.Msg, signers []int) abci.TxResult {
 	pre := w.snapshot()
@@ -360,6 +413,22 @@ func (w *world) tx(op string, attack bool, msgs []sdk.Msg, signers []int) abci.T
 	}
 	if model != "" {
 		model = strings.Replace(model, "@OK@", hx.B(res.Code == 0 && res.Panic == ""), 1)
+	}
+	if res.Code == 0 { // an accepted rotation renames requester / verifier of pending requests: they leave the ghost record
+		for _, m := range msgs {
+			w.ghostRotation(m)
+		}
+	}
+	ef, ej := w.escrowFacts(pre, post, signers)
+	facts, jfacts = append(facts, ef...), append(jfacts, ej...)
+	if w.expectOK != "" {
+		handlerRan := res.Code == 0 || strings.Contains(res.Log, "failed to execute message")
+		if handlerRan {
+			ok := res.Code == 0 && res.Panic == ""
+			facts = append(facts, fmt.Sprintf("FRightful %s %s", hx.Str(w.expectOK), hx.B(ok)))
+			jfacts = append(jfacts, fmt.Sprintf("the signer settles a pending %s entry of his own (ghost record): accepted=%v", w.expectOK, ok))
+		}
+		w.expectOK = ""
 	}
 	w.emit(0, op, attack, msgs, signers, res.Code == 0 && res.Panic == "", log, pre, post, facts, jfacts, model)
 	return res
@@ -484,6 +553,8 @@ func (w *world) begin(dt int64) {
 	p := w.c.BeginBlock(abci.BlockReq{Dt: dt, Proposer: prop})
 	post := w.snapshot()
 	jf = append(jf, w.compoundDesc...)
+	ef, ej := w.escrowFacts(pre, post, nil)
+	facts, jf = append(facts, ef...), append(jf, ej...)
 	w.emit(1, "begin-block", false, nil, nil, p == "", p, pre, post, facts, jf, "")
 }
 
@@ -495,5 +566,7 @@ func (w *world) end() {
 	facts, jf := w.poolFacts()
 	r = w.c.EndBlock()
 	post := w.snapshot()
+	ef, ej := w.escrowFacts(pre, post, nil)
+	facts, jf = append(facts, ef...), append(jf, ej...)
 	w.emit(2, "end-block", false, nil, nil, r.Panic == "", r.Panic, pre, post, facts, jf, "")
 }
